@@ -1,3 +1,5 @@
+\* C09: model-check the generated module CodegenMC.tla (EXTENDS Codegen; written by harness/checks/c09.py
+\* from the repository's export lists) with this configuration:  ./check C09 thorough
 SPECIFICATION Spec
 CONSTANTS
   Tier = "thorough"
